@@ -74,6 +74,9 @@ func (p *Program) calleeOf(cc *ssa.CallCommon) (*ssa.Function, string) {
 
 func (p *Program) anyFuncName(fn *ssa.Function) string {
 	if p.isLib(fn) {
+		if fn.Parent() != nil {
+			return p.FuncName(fn) // closures keep the name of the function their code belongs to
+		}
 		return p.rawName(fn) // callee names are the functions' own names (a call into a helper is not a call of its owner)
 	}
 	return qualName(fn)
@@ -644,7 +647,10 @@ func isLocalAllocKey(k string) bool {
 // (or a closure), otherwise — fn is a helper extracted later — the reference functions that reach it.
 func (p *Program) ownersOf(fn *ssa.Function) []string {
 	name := p.rawName(fn)
-	if knownFuncs[name] || fn.Parent() != nil {
+	if fn.Parent() != nil {
+		return []string{p.FuncName(fn)} // a closure that moved into a helper with its function keeps its attributed name
+	}
+	if knownFuncs[name] {
 		return []string{name}
 	}
 	return p.siteOwners(fn)
@@ -685,4 +691,18 @@ func (p *Program) blocksOf(fn *ssa.Function) []*ssa.BasicBlock {
 	}
 	rec(fn)
 	return out
+}
+
+// ownerFunc returns the reference function a helper is attributed to (see FuncName), or fn itself.
+func (p *Program) ownerFunc(fn *ssa.Function) *ssa.Function {
+	root := fn
+	for root.Parent() != nil {
+		root = root.Parent()
+	}
+	if o, ok := p.owner[root]; ok && root == fn {
+		if f := p.FuncOpt(o); f != nil {
+			return f
+		}
+	}
+	return fn
 }
